@@ -552,6 +552,11 @@ func oneBlock(r *hx.Rng, st *progStats) {
 	if isHF4 {
 		cfg.HF[4] = bi(h)
 	}
+	// … or the HF5 height (misc.ApplyHardFork5 runs; as written it only QUERIES the listed accounts)
+	isHF5 := r.Intn(4) == 0
+	if isHF5 {
+		cfg.HF[5] = bi(h)
+	}
 	rules := base
 	rules.Cfg = &cfg
 	rules.Number = bi(h)
@@ -615,14 +620,14 @@ func oneBlock(r *hx.Rng, st *progStats) {
 		ds = append(ds, fmt.Sprint(ix.of(a)))
 	}
 	dS := "-"
-	if isHF4 {
-		// the model zeroes the whole list; only the listed accounts that hold something matter
+	if isHF4 || isHF5 {
+		// the model zeroes (HF4) / queries (HF5) the whole list; only the listed accounts that hold something matter
 		dS = strings.Join(ds, ",")
 		if dS == "" {
 			dS = "-"
 		}
 	}
-	in := fmt.Sprintf("blk %d %d %d %s %s %s %d %s", h, b2i(isHF4), ix.of(cbAddr), unclesStr(ix, us), dS, preS, tracer.Suicides, sumAfter)
+	in := fmt.Sprintf("blk %d %d %d %d %s %s %s %d %s", h, b2i(isHF4), b2i(isHF5), ix.of(cbAddr), unclesStr(ix, us), dS, preS, tracer.Suicides, sumAfter)
 	out := sumAfter.String()
 	if tracer.Suicides > 0 {
 		out = "bounded"
@@ -632,6 +637,15 @@ func oneBlock(r *hx.Rng, st *progStats) {
 	run.Count(fmt.Sprintf("blk:uncles:%d", len(us)))
 	if isHF4 {
 		run.Count("blk:hf4-height")
+	}
+	if isHF5 {
+		run.Count("blk:hf5-height")
+		for _, a := range w.dealloc {
+			x, ok := after[a]
+			if !isHF4 && len(txs) == 0 && (!ok || x.Bal.Cmp(before[a].Bal) != 0) {
+				run.Violate("hf5-changed-balance", "hf5-changed-balance", map[string]interface{}{"case": in}, "a listed account's balance changed in an empty HF5 block")
+			}
+		}
 	}
 	if h >= params.MaxMoney.Uint64() {
 		run.Count("blk:at-or-after-cutoff")
